@@ -392,7 +392,7 @@ def run_recorded(mon, recorded, vecs, rng):
             got = [i["ex_units"] for i in base.get("ok", [])] if "ok" in base else None
             if got == rec["units"]:
                 mon.count("recorded_expected_units_matched")
-                mon.held(("rec", rec["name"]), {"recorded": rec["name"], "ex_units": got})
+                mon.held(("rec", rec["name"]), {"recorded": rec["name"], "ex_units": got} if len(mon.samples) < 3 else None)
             else:
                 mon.violation(f"C19|recorded|ex-units-differ-from-the-test|{rec['name']}", witness(rec["tx"], rec["utxos"], base_cfg, brief(base), {"ex_units[mem,steps]": rec["units"]}, tag))
         elif exp == "err":
@@ -1164,7 +1164,7 @@ def run(tier="quick", seed=0):
         return mon.result()
     rng = Rng(seed, 1)
     run_recorded(mon, recorded, vecs, rng)
-    run_synthetic(mon, pool, vecs, 1200 if quick else 20000, 10_000)
+    run_synthetic(mon, pool, vecs, 1000 if quick else 20000, 10_000)
     run_handover(mon, pool, vecs, 50 if quick else 600, 200_000)
     minimal_handover(mon, pool)
     run_missing_pieces(mon, pool, vecs, 120 if quick else 2000, 300_000)
